@@ -39,6 +39,10 @@ def world(env):
          # symbols that occur only inside an array literal (default element, stored value)
          "M=lit": m.Equals(m.Symbol("M", mk_type(env, ("Array", B2, BOOL))),
                            m.Array(mk_type(env, B2), m.Symbol("ax"), {m.BV(1, 2): m.Symbol("ay")})),
+         # ten symbols first seen in one assertion (the declarations of one call), and a user sort that occurs only
+         # inside the sort of array symbols
+         "big10": m.Or([m.Symbol("z%d" % i) for i in range(10)]),
+         "N1=N2": m.Equals(m.Symbol("N1", mk_type(env, ("Array", B2, SORT_S))), m.Symbol("N2", mk_type(env, ("Array", B2, SORT_S)))),
          # the strict solver answers unknown while kk is declared
          "kk|p": m.Or(m.Symbol(SS.UNKNOWN_SYMBOL), p)}
     T = {"p": p, "q": q, "u": u, "u+1": m.BVAdd(u, m.BV(1, 2)), "q&p": m.And(q, p)}
@@ -49,8 +53,12 @@ EVENTS_Q = [("add", "p"), ("add", "q|p"), ("add", "u=1"), ("add", "!p"), ("add",
             ("pop", 2), ("pop", 0), ("push", 0), ("reset",), ("solve",), ("value", "p"), ("value", "u+1"), ("model",), ("is_sat", "!q"),
             ("is_sat", "kk|p")]
 EVENTS_T = EVENTS_Q + [("push", 3), ("pop", 3), ("add", "kk|p"), ("is_valid", "kk|p"), ("add", "h(p)"), ("add", "u<2"), ("value", "q&p"), ("is_valid", "q|p"), ("is_unsat", "!p")]
-EVENTS_SORT = [("add", "c1=c2"), ("add", "pa=pb"), ("add", "pc=pd"), ("add", "p&(c1=c2|!c1=c2)"), ("add", "M=lit"), ("push", 1), ("push", 2), ("push", 3), ("pop", 1), ("pop", 2), ("pop", 3),
+EVENTS_SORT = [("add", "c1=c2"), ("add", "pa=pb"), ("add", "pc=pd"), ("add", "p&(c1=c2|!c1=c2)"), ("push", 1), ("push", 2), ("pop", 1), ("pop", 2),
                ("reset",), ("solve",), ("is_sat", "c1=c2"), ("is_sat", "pc=pd")]
+# what one assertion makes the wrapper declare: symbols inside an array literal, ten symbols at once, a user sort
+# that occurs only inside array sorts, symbols that simplification removes; levels opened three at a time
+EVENTS_DECL = [("add", "M=lit"), ("add", "big10"), ("add", "N1=N2"), ("add", "p&(c1=c2|!c1=c2)"), ("add", "c1=c2"),
+               ("push", 1), ("push", 3), ("pop", 1), ("pop", 3), ("solve",), ("reset",)]
 
 
 class _Unknown(Exception):
@@ -357,6 +365,10 @@ def _run_sort(h):
     return run_history(h, "sort")
 
 
+def _run_decl(h):
+    return run_history(h, "decl")
+
+
 def run(ctx):
     ctx.level = "model_checking"
     ctx.rule = ("breadth-first search over SmtLibSolver API histories (add_assertion of formulas whose symbols are "
@@ -369,6 +381,9 @@ def run(ctx):
     q = ctx.quick
     st1 = bfs(ctx, "main", _run_main, EVENTS_Q if q else EVENTS_T, max_depth=5 if q else 6)
     st2 = bfs(ctx, "sorts", _run_sort, EVENTS_SORT, max_depth=5 if q else 7)
+    st3 = bfs(ctx, "decl", _run_decl, EVENTS_DECL, max_depth=4 if q else 6)
+    for k_ in ("states", "transitions", "traces"):
+        st2[k_] += st3[k_]
     run_shortcuts(ctx)
     ctx.coverage.update({"states": st1["states"] + st2["states"],
                          "transitions": st1["transitions"] + st2["transitions"],
